@@ -597,7 +597,7 @@ def corr_reader(ck, texts):
                 for h in ('', 'H', 'H0', 'H1', 'H4', 'H5', 'H12', 'HH'):
                     for chg in ('', '+', '-', '+2', '-4', '+5', '++', '+-', '--', '+++', '-1', '+1+'):
                         if rng.random() < (0.003 if quick else 0.03):
-                            for mp in ('', ':1', ':0', ':9999', ':10000', ':', ':a', ':12x'):
+                            for mp in ('', ':1', ':0', ':9999', ':10000', ':123456789012', ':', ':a', ':12x'):
                                 add2(iso + sym + st + h + chg + mp)
     for _ in range(250 if quick else 4000):
         add2(''.join(rng.choice('019CclNnSsei@H+-:234 ') for _ in range(rng.randint(0, 6))))
